@@ -63,6 +63,7 @@ theorem evalFunc_const (fo : FloatOps) (f : Nat) (name : String) (args : List Te
   split at h
   · unfold evalJoin at h
     obtain ⟨ts, _, h⟩ := Res.bind_eq_ok.mp h
+    obtain ⟨gs, _, h⟩ := Res.bind_eq_ok.mp h
     cases h; exact Or.inl ⟨_, rfl⟩
   · split at h
     · unfold evalArith at h
